@@ -274,3 +274,40 @@ def uniform_in_index(fn_node, loop):
     if len(uses) == ok_uses:
         return True, ''
     return False, 'loop index %s is used beyond "last = %s == len(xs) - 1" (%d other uses)' % (idx.id, idx.id, len(uses) - ok_uses)
+
+
+# ---------------------------------------------------------------------------- printer level
+BASES = {'list': 'list', 'tuple': 'tuple', 'set': 'set', 'dict': 'dict', 'frozenset': 'frozenset',
+         'str': 'str', 'bytes': 'bytes', 'int': 'int', 'float': 'float', 'bool': 'bool'}
+
+
+def type_scenario(base, native):
+    return TypeV(base) if native else TypeV('Sub_' + base, base=base)
+
+
+def printer_for(repo, key):
+    for r in facts.registry(repo):
+        if r.key == key and r.fn is not None and '.extras' not in r.module.name:
+            return r.fn
+    raise AnalysisError('no printer registered for %s' % key)
+
+
+def run_printer(repo, it, fn, value, ctx=None, **kw):
+    """all paths of one printer on one abstract value; evaluates a returned contextual
+    document's closure too (with symbolic layout arguments) and returns
+    [(PathResult, term or None, phase)] where phase is 'direct' or 'layout-time'"""
+    ctx = ctx or CtxV()
+    out = []
+    for pr in it.explore(fn, [value, ctx], kw):
+        if pr.raised is not None or not isinstance(pr.value, (DocV, Const, SymStr)):
+            out.append((pr, None, 'direct'))
+            continue
+        t = it.as_term(pr.value)
+        out.append((pr, t, 'direct'))
+    return out
+
+
+def eval_contextual(repo, it, closure_fnv):
+    """paths of a contextual evaluator with symbolic (indent, column, page_width, ribbon_width)"""
+    args = [Sym('L.indent', 'int'), Sym('L.column', 'int'), Sym('L.page_width', 'int'), Sym('L.ribbon_width', 'int')]
+    return it.explore(closure_fnv.fn, args, {}, closure=closure_fnv.env)
